@@ -37,7 +37,10 @@ def main():
 
     known = set(tuple(k) for k in job.get('known', []))
     master, tier = job['master'], job['tier']
-    for i in range(job['start'], job['end']):
+    order = range(job['start'], job['end'])
+    if job.get('reverse'):
+        order = reversed(list(order))
+    for i in order:
         t0 = time.time()
         seed = seeds.run_seed(master, prop, i)
         knobs = cls.knobs(seeds.stream(seed, 'knob'), tier)
